@@ -12,7 +12,7 @@ use std::ffi::CString;
 use std::path::PathBuf;
 use std::process::{Command, Stdio};
 use serde_json::{json, Value};
-use crate::keyboard_listing::verif::{extract_keyboards, extract_input_devices};
+use crate::keyboard_listing::verif::{extract_keyboards, extract_input_devices, extract_keyboards_with, extract_input_devices_with};
 use crate::keyboard_listing::{ExtractedKeyboard, ExtractedInputDevice};
 use crate::remapping_loop::verif::{flag_excluded_keyboards, flag_excluded_devices};
 use crate::rng::Rng;
@@ -192,6 +192,28 @@ fn check_hook_level(g: &GenText, out: &mut ShardOut) -> Vec<Option<(String, Stri
   if dev_ctx != dev_iso {
     out.violation(Violation { property: "C16".to_string(), clause: "independence".to_string(), signature: "C16:dev-file-extractor-depends-on-neighbours".to_string(),
       message: format!("--dev-file extractor: in context {:?}, entry by entry {:?}", dev_ctx, dev_iso), replay: replay_obj(&g.text, &[]) });
+  }
+  // the same three oracles with the extractors' verbose flag on (what the installed systemd unit uses), on one text in four
+  if hash_str(&g.text) % 4 == 0 {
+    out.count("texts_also_checked_verbose");
+    let kb_ctx_v = extract_keyboards_with(&g.text, true);
+    let dev_ctx_v = extract_input_devices_with(&g.text, true);
+    let mut kb_iso_v: Vec<(String, String)> = vec![];
+    let mut dev_iso_v: Vec<(String, String, bool)> = vec![];
+    for e in &g.entries { let t = e.text(); kb_iso_v.extend(extract_keyboards_with(&t, true)); dev_iso_v.extend(extract_input_devices_with(&t, true)); }
+    if kb_ctx_v != kb_iso_v {
+      out.violation(Violation { property: "C16".to_string(), clause: "independence".to_string(), signature: "C16:all-keyboards-extractor-depends-on-neighbours:verbose".to_string(),
+        message: format!("--all-keyboards extractor (verbose): in context {:?}, entry by entry {:?}", kb_ctx_v, kb_iso_v), replay: replay_obj(&g.text, &[]) });
+    }
+    if dev_ctx_v != dev_iso_v {
+      out.violation(Violation { property: "C16".to_string(), clause: "independence".to_string(), signature: "C16:dev-file-extractor-depends-on-neighbours:verbose".to_string(),
+        message: format!("--dev-file extractor (verbose): in context {:?}, entry by entry {:?}", dev_ctx_v, dev_iso_v), replay: replay_obj(&g.text, &[]) });
+    }
+    let from_dev_v: Vec<(String, String)> = dev_ctx_v.iter().filter(|d| d.2).map(|d| (d.0.clone(), d.1.clone())).collect();
+    if kb_ctx_v != from_dev_v {
+      out.violation(Violation { property: "C16".to_string(), clause: "agreement".to_string(), signature: "C16:the-two-extractors-disagree:verbose".to_string(),
+        message: format!("verbose: --all-keyboards extractor finds {:?}, the --dev-file extractor's keyboards are {:?}", kb_ctx_v, from_dev_v), replay: replay_obj(&g.text, &[]) });
+    }
   }
   let from_dev: Vec<(String, String)> = dev_ctx.iter().filter(|d| d.2).map(|d| (d.0.clone(), d.1.clone())).collect();
   if kb_ctx != from_dev {
@@ -437,6 +459,11 @@ pub fn run(opts: &Opts) -> i32 {
   let mut out = ShardOut::new();
   let mut rng = Rng::new(opts.shard_seed() ^ 0xc16);
   let thorough = opts.thorough();
+  // the extractors print their reasoning when verbose: this process's own standard output goes to /dev/null
+  // (results are written to the out= file; the real binary's output is captured through pipes)
+  if !opts.out.is_empty() {
+    unsafe { let fd = libc::open(b"/dev/null\0".as_ptr() as *const libc::c_char, libc::O_WRONLY); if fd >= 0 { libc::dup2(fd, 1); libc::close(fd); } }
+  }
   let corpus = load_corpus();
   if corpus.len() < 10 { out.notes.insert("harness_error".to_string(), json!("device entry corpus missing")); out.write(opts); return 3; }
   out.add("corpus_entries", corpus.len() as u64);
